@@ -28,9 +28,9 @@ def main():
     if rc == 0:
         rc2, o2 = sh("git apply patch.diff", cwd=wt)
         assert rc2 == 0, "cannot apply patch in worktree: " + o2
-    rc_suite, o_suite = sh("cargo test --offline --features serde -- --skip seed_demo 2>&1 | grep -E '^test result|FAILED|panicked' | head -20", cwd=wt)
+    rc_suite, o_suite = sh("(cargo test --offline --features serde --lib --test lib --test test_array --test serde_tests; cargo test --offline --features serde --doc) 2>&1 | grep -E '^test result|FAILED|panicked|error' | head -20", cwd=wt)
     suite_ok = "FAILED" not in o_suite and "test result: ok" in o_suite
-    out["ran"].append({"cmd": "cargo test --offline --features serde -- --skip seed_demo   (patch applied)", "ok": suite_ok, "summary": o_suite.strip().splitlines()[:8]})
+    out["ran"].append({"cmd": "cargo test --offline --features serde --lib --test lib --test test_array --test serde_tests; ... --doc   (patch applied; every target except the demonstration)", "ok": suite_ok, "summary": o_suite.strip().splitlines()[:8]})
     rc_demo, o_demo = sh("cargo test --offline --test seed_demo 2>&1 | tail -15", cwd=wt)
     demo_fails = "test result: FAILED" in o_demo or "FAILED" in o_demo
     out["ran"].append({"cmd": "cargo test --offline --test seed_demo   (patch applied)", "fails_as_expected": demo_fails})
